@@ -142,5 +142,6 @@ pub fn behaviour() -> Behaviour {
         thorough: 20000,
         batch: 25,
         assumptions: &["m_cmp_rev / m_pcmp_rev reverse the order so swapped arguments are visible; m_pcmp_none and Inc/f32 produce None"],
+        miri_units: 0,
     }
 }
